@@ -2085,6 +2085,8 @@ fn arm_replay(&mut self)
 
 }
 
+#[verifier::spinoff_prover]
+#[verifier::rlimit(80)]
 fn encode_packet<T>(&mut self, packet: &T) -> (r: Result<(usize, usize), ProtocolError>)
 where
         T: Encodable,
@@ -2105,6 +2107,8 @@ where
         Ok((start + offset, packet.len()))
     }
 
+#[verifier::spinoff_prover]
+#[verifier::rlimit(80)]
 fn encode_publish<P: ToPayload, E>(
         &mut self,
         header: &PublishHeader<'_>,
@@ -2270,6 +2274,12 @@ pub open spec fn send_interval_ms(keepalive_ms: nat) -> nat {
     (keepalive_ms - lead) as nat
 }
 
+/// C10: the instant at which the next PINGREQ becomes due when a packet completed at `now`
+pub open spec fn ping_deadline(keepalive: Duration, now: Instant) -> Option<Instant> {
+    if keepalive.ticks() / 1000 == 0 { None }
+    else { Some(Instant { t: Ghost((now.ticks() + send_interval_ms(keepalive.ticks() / 1000) * 1000) as nat) }) }
+}
+
 impl RuntimeState {
 fn reset_transport(&mut self)
     ensures
@@ -2307,6 +2317,7 @@ fn note_outbound_activity(&mut self, now: Instant)
         old(self).keepalive_interval.ticks() / 1000 == 0 ==> final(self).next_ping is None,
         old(self).keepalive_interval.ticks() / 1000 != 0 ==> (final(self).next_ping matches Some(t)
             && t.ticks() == now.ticks() + send_interval_ms(old(self).keepalive_interval.ticks() / 1000) * 1000),
+        final(self).next_ping == ping_deadline(old(self).keepalive_interval, now),
         final(self).ping_timeout == old(self).ping_timeout && final(self).keepalive_interval == old(self).keepalive_interval
             && final(self).send_quota == old(self).send_quota && final(self).max_send_quota == old(self).max_send_quota
             && final(self).maximum_packet_size == old(self).maximum_packet_size && final(self).max_qos == old(self).max_qos
@@ -4033,6 +4044,7 @@ fn handle_disconnect(&mut self)
             && sd_frame(final(self).data, old(self).data)
             && final(self).data.pending_server_packet_ids@ == old(self).data.pending_server_packet_ids@
             && cfg_same(*final(self), *old(self)),
+        same_inflight(final(self).data.outbound, old(self).data.outbound),
         rt_ok(old(self).runtime) ==> sess_inv(*final(self)),
 {
 
@@ -4040,7 +4052,7 @@ fn handle_disconnect(&mut self)
         self.runtime.reset_transport();
         self.packet_reader.reset();
     
-        proof { lemma_armed_w6(self.data.outbound, old(self).data.outbound); }
+        proof { lemma_armed_w6(self.data.outbound, old(self).data.outbound); lemma_inflight_armed(self.data.outbound, old(self).data.outbound); }
 
 }
 }
@@ -5671,6 +5683,7 @@ impl<'a> PropertiesIter<'a> {
         ensures final(self).p == old(self).p,
             old(self).idx@ < props_items(old(self).p).len() ==> r == Some(props_items(old(self).p)[old(self).idx@]) && final(self).idx@ == old(self).idx@ + 1,
             old(self).idx@ >= props_items(old(self).p).len() ==> r is None && final(self).idx@ == old(self).idx@,
+            r matches Some(Err(e)) ==> e == PeerError::InvalidPacket,
     { unimplemented!() }
 }
 
@@ -5729,6 +5742,11 @@ async fn connect_handshake(
             && final(self).data.pending_server_packet_ids@ == old(self).data.pending_server_packet_ids@,
         r is Ok ==> 1 <= final(self).runtime.max_send_quota <= 8 && final(self).runtime.send_quota == final(self).runtime.max_send_quota,
         r is Ok ==> final(self).runtime.ping_timeout is None,
+        r is Ok ==> exists|now: Instant| final(self).runtime.next_ping == #[trigger] ping_deadline(final(self).runtime.keepalive_interval, now),
+        r matches Err(e) ==> (e is Transport || e is Disconnected || (e matches Error::Peer(PeerError::Rejected(_)))) ==>
+            final(self).data.generation == old(self).data.generation && final(self).data.session_present == old(self).data.session_present
+            && same_inflight(final(self).data.outbound, old(self).data.outbound)
+            && final(self).data.pending_server_packet_ids@ == old(self).data.pending_server_packet_ids@,
         r is Err ==> final(self).data.generation == old(self).data.generation || !final(self).data.session_present,
         final(self).downgrade_qos == old(self).downgrade_qos && final(self).session_expiry_interval == old(self).session_expiry_interval
             && final(self).will == old(self).will && final(self).auth == old(self).auth,
@@ -5818,12 +5836,14 @@ async fn connect_handshake(
             invariant
                 1 <= max_send_quota <= 8, send_quota == max_send_quota, local_quota == 8,
                 keepalive_interval.ticks() <= 65535 * 1_000_000,
+                property_result matches Err(e) ==> e == PeerError::InvalidPacket,
 {
             let mut __it1 = ack.properties.iter(); loop 
             invariant
                 0 <= __it1.idx@ <= props_items(__it1.p).len(),
                 1 <= max_send_quota <= 8, send_quota == max_send_quota, local_quota == 8,
                 keepalive_interval.ticks() <= 65535 * 1_000_000,
+                property_result matches Err(e) ==> e == PeerError::InvalidPacket,
 { let property = match __it1.next() { Some(__v) => __v, None => break };
                 match (match property { Ok(__v) => __v, Err(__e) => { property_result = Err(From::from(__e)); break 'iife1; } }) {
                     Property::MaximumPacketSize(size) => maximum_packet_size = Some(size),
